@@ -97,6 +97,14 @@ type Half struct {
 	nWrites  int
 	termErr  error // terminal error handed to the reader (nil until handed over)
 	termPos  int
+
+	// zeroRead, if set, is asked before every delivery (data or terminal
+	// error) whether this Read returns (0, nil) instead ("nothing happened",
+	// which io.Reader permits); the delivery then happens on a later Read.
+	zeroRead  func(pos, avail int) bool
+	nZero     int // reads answered with (0, nil) on behalf of zeroRead
+	rparked   int // readers currently parked because nothing is deliverable (not counting Hold)
+	parkedCnt int // how often a reader parked for lack of data
 }
 
 func newHalf() *Half {
@@ -129,6 +137,30 @@ func (h *Half) FaultReadAt(off int, err error) {
 // ErrWithData makes the terminal error (EOF or fault) come together with the
 // last data bytes (n > 0, err != nil), which io.Reader permits.
 func (h *Half) ErrWithData(b bool) { h.mu.Lock(); h.errWithData = b; h.mu.Unlock() }
+
+// ZeroReads installs f: before every delivery (of data, or of the terminal
+// error once the stream is drained) the pipe asks f(pos, avail) (pos = bytes
+// delivered so far, avail = bytes deliverable now, 0 when only the terminal
+// error is left); if it answers true the Read returns (0, nil) although
+// len(p) > 0 and delivers nothing. io.Reader allows that ("callers should treat
+// a return of 0 and nil as indicating that nothing happened; in particular it
+// does not indicate EOF"). f is called with the half's lock held and must
+// answer false eventually (a reader is expected to call Read again at once).
+// A reader with nothing deliverable still blocks: (0, nil) is only ever
+// returned in place of a delivery, so a retrying reader cannot spin forever.
+func (h *Half) ZeroReads(f func(pos, avail int) bool) { h.mu.Lock(); h.zeroRead = f; h.mu.Unlock() }
+
+// ZeroReadCount returns how many reads were answered with (0, nil) by ZeroReads.
+func (h *Half) ZeroReadCount() int { h.mu.Lock(); defer h.mu.Unlock(); return h.nZero }
+
+// ReadersParked returns the number of readers currently blocked inside Read
+// because neither data nor a terminal error is deliverable (a reader blocked by
+// Hold is not counted), and how often a reader parked that way so far.
+func (h *Half) ReadersParked() (now, total int) {
+	h.mu.Lock()
+	defer h.mu.Unlock()
+	return h.rparked, h.parkedCnt
+}
 
 // PartialWrites makes Write accept only f(len(p)) bytes with a nil error.
 func (h *Half) PartialWrites(f func(n int) int) { h.mu.Lock(); h.writeAccept = f; h.mu.Unlock() }
@@ -306,14 +338,25 @@ func (h *Half) read(p []byte) (int, error) {
 		avail := limit - h.rpos
 		if avail <= 0 {
 			if endErr != nil {
+				if h.zeroRead != nil && len(p) > 0 && h.zeroRead(h.rpos, 0) {
+					h.noteZeroLocked()
+					return 0, nil
+				}
 				h.termErr, h.termPos = endErr, h.rpos
 				h.cond.Broadcast()
 				return 0, endErr
 			}
+			h.rparked++
+			h.parkedCnt++
 			h.cond.Wait()
+			h.rparked--
 			continue
 		}
 		if len(p) == 0 {
+			return 0, nil
+		}
+		if h.zeroRead != nil && h.zeroRead(h.rpos, avail) {
+			h.noteZeroLocked()
 			return 0, nil
 		}
 		if avail > len(p) {
@@ -345,6 +388,11 @@ func (h *Half) read(p []byte) (int, error) {
 	}
 }
 
+func (h *Half) noteZeroLocked() {
+	h.nZero++
+	h.readHash = (h.readHash ^ 0x5a5a) * 1099511628211
+}
+
 func (h *Half) closeRead() {
 	h.mu.Lock()
 	h.rclosed = true
@@ -362,6 +410,8 @@ type End struct {
 	closes    int
 	deadlines int
 	closeCh   chan struct{}
+	readDl    time.Time // last read deadline set (zero: none)
+	readDlSet int       // number of non-zero read deadlines set
 }
 
 // New builds a pipe and returns its two ends.
@@ -403,13 +453,47 @@ func (e *End) Closes() int { e.mu.Lock(); defer e.mu.Unlock(); return e.closes }
 func (e *End) Closed() <-chan struct{} { return e.closeCh }
 
 // SetDeadline is recorded and otherwise ignored (no wall-clock in verdicts).
-func (e *End) SetDeadline(time.Time) error { e.mu.Lock(); e.deadlines++; e.mu.Unlock(); return nil }
+func (e *End) SetDeadline(t time.Time) error {
+	e.mu.Lock()
+	e.deadlines++
+	e.noteReadDeadlineLocked(t)
+	e.mu.Unlock()
+	return nil
+}
+
+func (e *End) noteReadDeadlineLocked(t time.Time) {
+	e.readDl = t
+	if !t.IsZero() {
+		e.readDlSet++
+	}
+}
 
 // SetReadDeadline see SetDeadline.
-func (e *End) SetReadDeadline(time.Time) error { return e.SetDeadline(time.Time{}) }
+func (e *End) SetReadDeadline(t time.Time) error {
+	e.mu.Lock()
+	e.deadlines++
+	e.noteReadDeadlineLocked(t)
+	e.mu.Unlock()
+	return nil
+}
+
+// ReadDeadlineArmed reports whether a non-zero read deadline is currently set
+// on this end (the pipe never enforces it: a harness that wants the timeout to
+// "fire" injects a read fault once the reader is parked), and how many
+// non-zero read deadlines were set so far.
+func (e *End) ReadDeadlineArmed() (armed bool, sets int) {
+	e.mu.Lock()
+	defer e.mu.Unlock()
+	return !e.readDl.IsZero(), e.readDlSet
+}
 
 // SetWriteDeadline see SetDeadline.
-func (e *End) SetWriteDeadline(time.Time) error { return e.SetDeadline(time.Time{}) }
+func (e *End) SetWriteDeadline(time.Time) error {
+	e.mu.Lock()
+	e.deadlines++
+	e.mu.Unlock()
+	return nil
+}
 
 // ScriptReader is a non-concurrent io.Reader over a fixed byte string with
 // scripted chunking; after the data it returns Err (io.EOF if nil).
